@@ -18,6 +18,8 @@ def gen_cases(rng, tier, scale):
     if tier == 'thorough':
         for _ in range(500 * scale):
             cases += gen_matrix(rng, maxchain, rng.randint(1, 4), 12, flask=True)
+    for _ in range((90 if tier == 'quick' else 2500) * scale):          # shared Parameter objects, calls in sequence
+        cases.append(gen_shared(rng, maxchain))
     for _ in range((400 if tier == 'quick' else 6000) * scale):
         c = gen_random_case(rng, maxchain)
         if rng.random() < 0.2:
@@ -31,5 +33,6 @@ def run(tier, seed, replay=None):
                       rule='per configuration (signature of 1-4 named parameters +-self +-defaults +-keyword-only, Parameters in a '
                            'random declaration order, strict, external presence pattern) and named assignment: all positional/keyword '
                            'splits x all keyword permutations (all for <=3 parameters, sampled for 4) x 3 return_as modes, plus all '
-                           '(<=6) declaration orders; thorough adds Flask JSON/form/query/header parameters inside a test request '
+                           '(<=6) declaration orders; sequences of 3-6 calls of 2-3 functions decorated with the same Parameter objects (different signature '
+                           'defaults / modes / declaration orders, external values changing between calls), every call judged on its own; thorough adds Flask JSON/form/query/header parameters inside a test request '
                            'context; distinct = whole case; non-trivial = at least one Parameter and one supplied or external value')
